@@ -134,3 +134,15 @@ Theorem C15_translated_main_spawns_the_configured_threads :
             /\ length (filter (fun t => match t with TWorker _ => true | TReporter => false end) ths) = N.to_nat (Z.to_N (lc_workers c)).
 Proof. exact main_exit_0. Qed.
 Print Assumptions C15_translated_main_spawns_the_configured_threads.
+
+(* the two socket set-ups AS TRANSLATED (bind_socket of the server binary, Server::bind_health_listener): both the
+   worker's UDP socket and the health check's TCP listener are bound with SO_REUSEADDR and SO_REUSEPORT set —
+   the `reuseport = true` under which C15_all_serving holds (and without which C15_without_reuseport_refuted
+   shows the second worker failing to bind) *)
+Require Import RV.Proofs.CodeSockets.
+Theorem C15_translated_sockets_bound_with_reuseport :
+  forall addr_ok bind_ok a v6 ra rp bl,
+  (gen_bind_socket addr_ok bind_ok tt = Ok (Bound v6 ra rp bl) \/ gen_bind_health_listener bind_ok a = Ok (Bound v6 ra rp bl)) ->
+  ra = true /\ rp = true.
+Proof. exact sockets_bound_with_reuseport. Qed.
+Print Assumptions C15_translated_sockets_bound_with_reuseport.
